@@ -2,6 +2,7 @@
 # tools/try_mutant.sh <patch.diff> <ID> [<ID>...]  - apply a seeded change to /repo, run the quick checks, undo it.
 P="$1"; shift
 cd /verif || exit 2
+export VERIF_EVIDENCE_DIR=$(mktemp -d /tmp/mut-evidence-XXXXXX)
 git -C /repo diff --quiet || { echo "repo dirty"; exit 2; }
 git -C /repo apply "$P" || { echo "patch does not apply"; exit 2; }
 for ID in "$@"; do
